@@ -208,6 +208,14 @@ def judge(case):
         elif kind == "inf-cum":
             kw = {"cum_weights": cum[:-1] + [float("inf")]}
         kw0 = copy.deepcopy(kw)
+        if kind in ("long", "short", "long-cum", "short-cum"):
+            # warm-up: the very same weights are valid for a population of matching length; a validation result remembered
+            # from that call must not leak into the malformed one
+            m = len(next(iter(kw.values())))
+            try:
+                dc(case["id"], [Tag(i, None) for i in range(m)], **copy.deepcopy(kw))
+            except Exception:
+                pass  # the truncated / extended vector may itself be invalid (e.g. zero total): only a warm-up
         try:
             r = dc(case["id"], pop, **kw)
             if kind == "nan":
